@@ -26,7 +26,10 @@ pub fn fill_to_capacity_with_tokens(
 	num_errors: usize,
 ) -> Result<(), anyhow::Error>
 {
+	#[cfg(not(penne_verif))]
 	let mut rng = rand::rng();
+	#[cfg(penne_verif)]
+	let mut rng = verif_seeded_rng();
 
 	let base_token_dist = WeightedIndex::new({
 		let mut weights = [0; 256];
@@ -443,4 +446,19 @@ pub fn fill_to_capacity_with_tokens(
 	}
 
 	Ok(())
+}
+
+/// Verification hook: make the fuzzer replayable. With `--cfg penne_verif`
+/// and `PENNE_VERIF_FUZZ_SEED=<u64>` in the environment the random choices
+/// derive from that seed; otherwise they are seeded from the OS as usual.
+#[cfg(penne_verif)]
+fn verif_seeded_rng() -> rand::rngs::StdRng
+{
+	match std::env::var("PENNE_VERIF_FUZZ_SEED")
+		.ok()
+		.and_then(|x| x.parse::<u64>().ok())
+	{
+		Some(seed) => rand::rngs::StdRng::seed_from_u64(seed),
+		None => rand::rngs::StdRng::from_rng(&mut rand::rng()),
+	}
 }
